@@ -155,6 +155,41 @@ def sweep_blocks(ctx, codec, first_sizes):
         ctx.sample({'codec': codec, 'blocks': 3, 'blocked': True, 'file_bytes': 3042})
 
 
+def message_of_length(length, codec):
+    """a message whose encoded record is exactly `length` bytes (60 <= length <= 4000)"""
+    for pan in range(19, 9, -1):
+        m = {'MTI': '1240', 'DE2': '5' * pan}
+        rest = length - len(refcodec.encode(PACKAGED, codec, False, m))
+        for k in ('DE54', 'DE72', 'DE111', 'DE127'):
+            if rest < 4:
+                break
+            take = min(rest - 3, 999)
+            if 0 < rest - 3 - take < 4:
+                take -= 4          # leave room for the next element's prefix and one character
+            m[k] = 'F' * take
+            rest -= take + 3
+        if rest == 0 and len(refcodec.encode(PACKAGED, codec, False, m)) == length:
+            return m
+    raise harness.HarnessError(f'no message of {length} bytes')
+
+
+def sweep_first_record(ctx, codec):
+    """two-record files whose first record ends at every position around the ends of the first three blocks (so that
+    the second length prefix sits before, across and after a block trailer), blocked and unblocked"""
+    n = 0
+    for base in (1012, 2024, 3036):
+        for length in range(base - 14, base + 9):
+            msgs = [message_of_length(length, codec), small_message(2, 50)]
+            for blocked in (True, False):
+                n += 1
+                data = write_file(msgs, codec, blocked)
+                res = check_valid(data, codec, blocked, f'writer-produced {"1014" if blocked else "VBS"} file, {codec}, first record of {length} bytes')
+                if res:
+                    ctx.report(res[0] + ':first-record-at-block-edge', {'kind': 'first-record', 'length': length, 'codec': codec, 'blocked': blocked}, res[1])
+    ctx.bulk(n, nontrivial_distinct=n, label='first-record-at-block-edge')
+    ctx.enumerated(f'two-record files, first record of every length within -14..+8 of 1012 / 2024 / 3036, blocked and unblocked, {codec}')
+
+
 def crafted_offsets(ctx, codec):
     """Unblocked files whose bytes at 1012/1013 and 2026/2027 (where block trailers would sit) are steered one by one to the
     pad value 0x40 or to something else, by choosing the characters of long text elements that cover those offsets."""
@@ -312,6 +347,8 @@ def tasks(tier, seed):
         t.append(('sweep_blocks', dict(codec=codec, first_sizes=[0, 300, 1500, 2480, 2600, 5800] if not full else [0, 300, 900, 1500, 2480, 2492, 2493, 2500, 2600, 3000, 4100, 5800])))
     for codec in ('latin_1', 'cp500', 'cp037', 'ascii'):
         t.append(('crafted_offsets', dict(codec=codec)))
+    for codec in ('latin_1', 'cp500'):
+        t.append(('sweep_first_record', dict(codec=codec)))
     for i in range(4 if not full else 12):
         t.append(('hyp_files', dict(n=60 if not full else 500)))
     return t
@@ -333,6 +370,10 @@ def replay(case):
         msgs = grow_to_blocks(case['b'], first, case['variant'])
         data = write_file(msgs, case['codec'], case['blocked'])
         return check_valid(data, case['codec'], case['blocked'], 'replayed grown file')
+    if k == 'first-record':
+        data = write_file([message_of_length(case['length'], case['codec']), small_message(2, 50)], case['codec'], case['blocked'])
+        res = check_valid(data, case['codec'], case['blocked'], 'replayed first-record file')
+        return (res[0] + ':first-record-at-block-edge', res[1]) if res else None
     if k == 'crafted':
         c = harness.Ctx('C17', 'quick', 0)
         crafted_offsets(c, case['codec'])
